@@ -2,7 +2,6 @@ package functions
 
 import (
 	"fmt"
-	"reflect"
 	"strconv"
 
 	"diagonal.works/b6"
@@ -540,7 +539,7 @@ func call(context *api.Context, f api.Callable, args ...interface{}) (interface{
 	es := context.VM.ArgExpressions()
 	frames := make([]api.StackFrame, len(args))
 	for i := range frames {
-		frames[i].Value = reflect.ValueOf(args[i])
+		frames[i].Value = api.ValueOf(args[i])
 		frames[i].Expression = es[i+1]
 	}
 	return context.VM.CallWithArgsAndExpressions(context, f, frames)
